@@ -1365,7 +1365,8 @@ std::size_t rtosc::path_search(const Ports &root, const char *m,
 {
     const char *str    = rtosc_argument(m,0).s;
     const char *needle = rtosc_argument(m,1).s;
-    size_t max_args    = max_ports << 1;
+    //the reply can begin with the two query strings
+    size_t max_args    = (max_ports << 1) + (reply_with_query ? 2 : 0);
     size_t max_types   = max_args + 1;
     STACKALLOC(char, types, max_types);
     STACKALLOC(rtosc_arg_t, args, max_args);
